@@ -39,6 +39,20 @@ CHECKS = [
         "engine-B proxy overrides listed in evidence. Bounded: shapes <= 4x3 (B), n<=12,p<=8 (C).",
         "contract-based deductive verification (ast->z3 on real source) + symbolic execution of the real functions on sympy arrays + bounded oracles",
         "DESIGN.md C14"),
+    chk("C04", "proof",
+        "Engine A symbolically executes the real AST of eval_bootstrap, eval_bootstrap_pattern, eval_bootstrap_rdm, crossval and eval_fixed "
+        "with every random draw HAVOCed (an arbitrary outcome per call instance, indexed by the loop counter) and all loops summarised at a "
+        "Skolem index (any N, any number of models / folds). z3 discharges, for all inputs: evaluations[i,j] = mean(compare(subsample_pattern("
+        "predict_rdm(m_j,theta_j), pd, P_i), S_i, method)) for the i-th draw (S_i,P_i), NaN exactly when the draw has < 3 distinct condition "
+        "groups; ceilings are boot_noise_ceiling of the same resample; variances = np.cov over the isfinite-masked rows (with ceiling rows); "
+        "dof = resampled descriptor groups - 1 (min of both); crossval row f = compare(prediction fitted by fitter_j on train_f ONLY with "
+        "method/pattern_idx/pattern_descriptor, subsampled to test_f, test_f data), NaN row for unusable folds, (1, models, folds) layout; "
+        "eval_fixed rows, cov(ddof=0)/n_rdm, dof n_rdm-1; all Result fields. Bootstrap-wrapped cross-validation (bootstrap_crossval, "
+        "dual bootstrap) and crossval with fitter=None / ceil_set=None+noise ceiling are decided by the bounded tier only.",
+        "compare, predict_rdm, subsample_pattern, boot/cv_noise_ceiling, np.cov/mean/isfinite are uninterpreted pure functions (their own "
+        "contracts are C03/C07/C08/C09); Result.__init__ is a record constructor; samplers are havoc (C09); reals for floats.",
+        "contract-based deductive verification: ast->z3 on the real source, EUF term equality with havoc RNG and Skolemised loop summaries",
+        "DESIGN.md C04"),
 ]
 
 _PENDING = "contract written in DESIGN.md, machinery for this property not yet built and validated"
